@@ -153,6 +153,9 @@ def r4(ctx, retsets):
         for e in o["events"]:
             if e[0] == "call":
                 got[e[2][0]] = e[2][1:]
+    if got and all(k is None for k in got):
+        raise AnalysisBroken("rtr_init: the values handed to rtr_check_interval_range are not the arguments themselves in a form the evaluation can "
+                             "follow (for instance copied into a local table that a loop walks): the range table of rtr_init cannot be evaluated")
     for name, probe in (("refresh", 3600), ("expire", 7200), ("retry", 600)):
         lo, hi, _ = rfc8210.TIMERS[name]
         ctx.check(got.get(probe) == (lo, hi), "C17.R1", "init:%s-range" % name, "%s:%d" % (fn.relfile, fn.line),
